@@ -1367,6 +1367,28 @@ theorem itemExists_silent_of_found (s : Schema) (c : TagCtx) (t : Sec) (ie : IE)
     · simp [h0]
     · simp [h0, hx, hd]
 
+/-! ## Old-style (< 8.3) tag attributes: `get_tag_attribute_names_old` excludes all four section properties -/
+
+def oldTiny : Schema :=
+  { header := ⟨['8','.','2','.','0'], [], []⟩, prologue := [], epilogue := [],
+    sec := fun
+      | .attributes => [⟨Key.SIUnitModifier, [(Key.UnitModifierProperty, .flag)], [], [], []⟩]
+      | .tags => [⟨['A'], [], [], [], []⟩]
+      | _ => [] }
+
+/-- in a pre-8.3 schema an attribute declared with `unitModifierProperty` only (SIUnitModifier) is valid for unit
+modifiers and is *not* a tag attribute: on a tag it is an undeclared attribute -/
+theorem siUnitModifier_not_a_tag_attribute_old :
+    gen83 oldTiny = false ∧ Key.SIUnitModifier ∉ validAttrs oldTiny .tags ∧
+    Key.SIUnitModifier ∈ validAttrs oldTiny .unitModifiers := by
+  have h1 : verLE ['8','.','3','.','0'] ['8','.','2','.','0'] = some false := by decide
+  have hg : gen83 oldTiny = false := by simp [gen83, oldTiny, findByName, h1]
+  refine ⟨hg, ?_, ?_⟩
+  · simp only [validAttrs, hg, elementKey]
+    simp [visible, visG, oldTiny, probeOf, regOf, Entry.has, getAttr]
+  · simp only [validAttrs, hg, elementKey]
+    simp [visible, visG, oldTiny, probeOf, regOf, Entry.has, getAttr]
+
 /-! ## Non-vacuity: the hypotheses are satisfiable (a two-entry schema; the driver evaluates `compliantB`
 and `admissible` on every bundled schema and every position the harness uses) -/
 
